@@ -10,7 +10,11 @@ use proptest::test_runner::{Config, RngAlgorithm, TestRng, TestRunner};
 pub type Finding = (String, String, String);
 
 fn known_for(id: &str) -> Vec<String> {
-    load_known(id).into_iter().map(|k| k.signature).collect()
+    // the list is read once per process (the fuzzer calls this millions of times)
+    static CACHE: std::sync::OnceLock<std::sync::Mutex<std::collections::HashMap<String, Vec<String>>>> = std::sync::OnceLock::new();
+    let m = CACHE.get_or_init(|| std::sync::Mutex::new(std::collections::HashMap::new()));
+    let mut g = m.lock().unwrap();
+    g.entry(id.to_string()).or_insert_with(|| load_known(id).into_iter().map(|k| k.signature).collect()).clone()
 }
 
 /// C03 + C02 + C06 + C16 on one text
